@@ -139,7 +139,7 @@ R5 = {
 }
 for k in claimed:
     claimed[k]["text"] += R5.get(k, "")
-claimed["C01"]["note"] = claimed["C01"]["note"].replace("(20 hand-reviewed obligations,", "(12 hand-reviewed obligations,") + " Reviewed assumptions (instance separation of a reader and its source; pfbReader.len >= 0 with its stores checked) are in /verif/reviewed/assumptions.json and listed in the evidence when used. Unexported anchors that were renamed are resolved by shape against /verif/anchors.json (evidence: anchors_resolved_by_shape)."
+claimed["C01"]["note"] = claimed["C01"]["note"].replace("(20 hand-reviewed obligations,", "(9 hand-reviewed obligations,") + " Reviewed assumptions (instance separation of a reader and its source; pfbReader.len >= 0 with its stores checked) are in /verif/reviewed/assumptions.json and listed in the evidence when used. Unexported anchors that were renamed are resolved by shape against /verif/anchors.json (evidence: anchors_resolved_by_shape)."
 
 NA = {}
 na_reason = "not yet claimed: the rule family for this property is designed in DESIGN.md §5 but not built; static analysis decides only structural clauses of it"
